@@ -61,6 +61,9 @@ type Scenario struct {
 	Bound        int    `json:"bound"` // 0 = unbounded
 	Ops          []Op   `json:"ops"`
 	FinalRestart bool   `json:"final_restart,omitempty"` // restart once more before the final drain
+	// QueryOrder: iteration order of the datastore for unordered queries ("" = lexicographic like badger,
+	// "reverse", "scrambled" like a map): go-datastore promises none
+	QueryOrder string `json:"query_order,omitempty"`
 }
 
 var tinyTxs = []string{"", "a", "b", "aa", "ab", "zz", "mm"}
@@ -161,6 +164,7 @@ func genHistory(t *rapid.T, faults bool, maxOps int) Scenario {
 		sc.Ops = append(sc.Ops, genOp(t, sc.ChainID, faults))
 	}
 	sc.FinalRestart = rapid.Bool().Draw(t, "finalrestart")
+	sc.QueryOrder = rapid.SampledFrom([]string{"", "", "reverse", "scrambled"}).Draw(t, "queryorder")
 	return sc
 }
 
@@ -299,6 +303,7 @@ func (w *wld) reboot(why string) *world.Verdict {
 	for attempt := 0; ; attempt++ {
 		if w.d.Dead() {
 			w.d = world.FromImage(w.d.Image())
+			w.d.QueryOrder = w.sc.QueryOrder
 		}
 		var err error
 		pan, crashed := guarded(func() { err = w.open() })
@@ -673,6 +678,10 @@ func (w *wld) verdictOK() world.Verdict {
 // It returns the verdict and the number of durable ops a crash-free run performed.
 func runHistory(sc Scenario, globalCrash int) (world.Verdict, int) {
 	w := &wld{ctx: context.Background(), sc: sc, d: world.NewCrashDS(), labels: map[string]bool{}, obs: map[string]bool{}, cands: [][]int{{}}}
+	w.d.QueryOrder = sc.QueryOrder
+	if sc.QueryOrder != "" {
+		w.labels["query-order:"+sc.QueryOrder] = true
+	}
 	for k, v := range bystanders {
 		_ = w.d.Put(w.ctx, ds.NewKey(k), v)
 	}
